@@ -9,6 +9,8 @@ Supers(cls) ==
   CASE cls = "Base" -> {"Base"}
     [] cls = "Mid"  -> {"Mid", "Base"}
     [] cls = "Leaf" -> {"Leaf", "Mid", "Base"}
+    [] cls = "Own"  -> {"Own"}                      \* a class with a hand-written __new__ ...
+    [] cls = "OwnSub" -> {"OwnSub", "Own"}          \* ... and its undecorated subclass
     [] cls = "P"    -> {"P"}
     [] cls = "R"    -> {"R"}
     [] OTHER -> {cls}
@@ -16,7 +18,7 @@ Supers(cls) ==
 \* s = [reg : Seq([idx, cls]), next : Nat, inits : Nat, decl : Seq(type)]
 \*   decl  = types of the no-domain variables declared so far (slot k = k-th declaration)
 \*   next  = index the next concretely constructed instance gets
-\*   inits = how often the hand-written __init__ of Leaf has run
+\*   inits = how often a hand-written __init__ (Leaf, Own, OwnSub) has run
 InitS == [reg |-> <<>>, next |-> 1, inits |-> 0, decl |-> <<>>]
 
 RECURSIVE AppendN(_, _, _, _)
@@ -24,7 +26,7 @@ AppendN(reg, next, cls, n) == IF n = 0 THEN reg ELSE AppendN(Append(reg, [idx |-
 
 Apply(ev, s) ==
   CASE ev.op = "construct" -> [s EXCEPT !.reg = Append(@, [idx |-> s.next, cls |-> ev.cls]), !.next = @ + 1,
-                                        !.inits = @ + (IF ev.cls = "Leaf" THEN 1 ELSE 0)]
+                                        !.inits = @ + (IF ev.cls \in {"Leaf", "Own", "OwnSub"} THEN 1 ELSE 0)]
     [] ev.op = "symconstruct" -> s                     \* registers nothing, runs no initialisation
     [] ev.op = "infer" -> [s EXCEPT !.reg = AppendN(s.reg, s.next, "P", ev.n), !.next = s.next + ev.n]
     [] ev.op = "clear" -> [s EXCEPT !.reg = <<>>]
